@@ -514,6 +514,7 @@ pub fn run_k(case: &KCase) -> (SimEnd, crate::sched::SimStats, KObs) {
         let mut idle_quiescent_turns = 0;
         let mut hang = false;
         let mut max_frames = 0usize;
+        let mut blocked_reported = false;
         let mut queued_total = 0usize;
         let mut frame_ends: Vec<(String, usize, usize)> = Vec::new();
         loop {
@@ -607,6 +608,44 @@ pub fn run_k(case: &KCase) -> (SimEnd, crate::sched::SimStats, KObs) {
                     format!("{} bytes of an unterminated request sit at the server while no client thread can run", inbuf.len()),
                 ));
                 inbuf.clear();
+            }
+            // at a quiescent moment every client operation that was invoked and has not returned is
+            // waiting for reply bytes the server has not released yet - that is, it is the one call that
+            // owns the connection. Any other open invocation waits somewhere it should not (on the
+            // connection lock, say): "any other call fails immediately with a busy error".
+            if !eager && !closed && !blocked_reported {
+                let open: Vec<String> = {
+                    let w = net.lock();
+                    let mut open: Vec<String> = Vec::new();
+                    for (_, _, e) in w.log.iter() {
+                        if let crate::net::Ev::Note(n) = e {
+                            if let Some(x) = n.strip_prefix("inv ") {
+                                open.push(x.to_string());
+                            } else if let Some(x) = n.strip_prefix("ret ") {
+                                if let Some(p) = open.iter().position(|o| o == x) {
+                                    open.remove(p);
+                                }
+                            }
+                        }
+                    }
+                    open
+                };
+                for inv in open {
+                    let tok = inv.split(' ').next().unwrap_or("").to_string();
+                    let owner = outstanding.as_deref() == Some(tok.as_str()) && !pending.is_empty();
+                    if !owner {
+                        sv.push(viol(
+                            "C07",
+                            "blocked-instead-of-refused",
+                            format!(
+                                "operation `{}` was invoked and, with no thread able to run, has neither returned nor is it the call whose reply the server still holds ({:?}): it waits where it should have been refused or served at once",
+                                inv, outstanding
+                            ),
+                        ));
+                        blocked_reported = true;
+                        break;
+                    }
+                }
             }
             let mut released = false;
             if !pending.is_empty() && !closed {
